@@ -295,30 +295,45 @@ def s4(chk: Check, proj: Project, m) -> None:
     chk.floor("S4-replacements", len([x for x in stmts(orm) if isinstance(x, ast.Assign) and norm(x.targets[0]) == rname]), 2)
 
 
-def s5(chk: Check, proj: Project, m) -> None:
-    chk.rule("S5", "the middleware rewrites response.content only if the response is not streaming and its Content-Type starts with text/html")
+def s5(chk: Check, proj: Project, m, rule: str = "S5") -> None:
+    chk.rule(rule, "the middleware rewrites response.content only if the response is not streaming and its Content-Type starts with text/html")
     f = m.func("ComponentDependencyMiddleware._process_response")
     chk.analysed(fkey(m, f))
     stores = [s for s in stmts(f) if isinstance(s, ast.Assign) and norm(s.targets[0]).endswith(".content")]
     if len(stores) != 1:
-        chk.undecided("S5", "dependencies:middleware:store", m.loc(f), f"{len(stores)} stores to response.content")
+        chk.undecided(rule, "dependencies:middleware:store", m.loc(f), f"{len(stores)} stores to response.content")
         return
     s = stores[0]
     atoms = flatten_conj(path_conditions(s))
     not_stream = any((not pol) and isinstance(e, ast.Call) and norm(e.func) == "isinstance" and "StreamingHttpResponse" in norm(e) for e, pol in atoms)
     html = [e for e, pol in atoms if pol and isinstance(e, ast.Call) and isinstance(e.func, ast.Attribute) and e.func.attr == "startswith" and e.args and isinstance(e.args[0], ast.Constant) and e.args[0].value == "text/html" and "Content-Type" in norm(e.func.value)]
     other = [e for e, pol in atoms if "Content-Type" in norm(e) and not any(e is h for h in html)]
-    chk.ob("S5", "dependencies:middleware:not-streaming", m.loc(s), not_stream, "guarded by `not isinstance(response, StreamingHttpResponse)`" if not_stream else "streaming responses are rewritten (their content is consumed)")
-    chk.ob("S5", "dependencies:middleware:html-only", m.loc(s), bool(html) and not other, "guarded by Content-Type.startswith('text/html')" if html and not other else
+    chk.ob(rule, "dependencies:middleware:not-streaming", m.loc(s), not_stream, "guarded by `not isinstance(response, StreamingHttpResponse)`" if not_stream else "streaming responses are rewritten (their content is consumed)")
+    chk.ob(rule, "dependencies:middleware:html-only", m.loc(s), bool(html) and not other, "guarded by Content-Type.startswith('text/html')" if html and not other else
            f"the Content-Type test is `{short(other[0]) if other else 'missing'}`, not `startswith('text/html')`: non-HTML responses whose type merely contains 'html' are decoded and rewritten")
+    # ... and is not NARROWER: a further conjunct that looks only at response metadata (status code, other headers,
+    # cookies) cannot imply that the body has no markers, so it leaves markers in the responses it excludes
+    META = ("status_code", "reason_phrase", "cookies", "charset", "has_header", "headers", "streaming", "closed")
+    extra = []
+    for e, pol in atoms:
+        if any(e is h for h in html) or (isinstance(e, ast.Call) and norm(e.func) == "isinstance" and "StreamingHttpResponse" in norm(e)):
+            continue
+        extra.append(e)
+    meta = [e for e in extra if any(isinstance(x, ast.Attribute) and x.attr in META for x in ast.walk(e)) or (isinstance(e, ast.Call) and last_attr(e.func) == "get" and "Content-Type" not in norm(e))]
+    unknown = [e for e in extra if not any(e is x for x in meta) and "Content-Type" not in norm(e)]
+    if unknown:
+        chk.undecided(rule, "dependencies:middleware:gate-not-narrower", m.loc(s), f"additional gate condition `{short(unknown[0])}` not understood")
+    else:
+        chk.ob(rule, "dependencies:middleware:gate-not-narrower", m.loc(s), not meta, "the gate has no further condition: every non-streaming text/html response is processed" if not meta else
+               f"the gate also requires `{short(meta[0])}` (response metadata): HTML responses it excludes (error pages, 4xx form re-renders) keep their <!-- _RENDERED --> markers and get no JS/CSS")
     rc = s.value
     ok = isinstance(rc, ast.Call) and last_attr(rc.func) == "render_dependencies" and rc.args and norm(rc.args[0]).endswith(".content")
-    chk.ob("S5", "dependencies:middleware:calls-render_dependencies", m.loc(s), ok, "content := render_dependencies(content, type='document')")
+    chk.ob(rule, "dependencies:middleware:calls-render_dependencies", m.loc(s), ok, "content := render_dependencies(content, type='document')")
     # both entry points go through _process_response
     for q in ("ComponentDependencyMiddleware.__call__", "ComponentDependencyMiddleware.__acall__"):
         r = proj.try_func("dependencies", q)
         if r:
-            chk.ob("S5", f"dependencies:{q}:uses-guard", r[0].loc(r[1]), bool(calls(r[1], "_process_response")), "response passes through _process_response")
+            chk.ob(rule, f"dependencies:{q}:uses-guard", r[0].loc(r[1]), bool(calls(r[1], "_process_response")), "response passes through _process_response")
 
 
 MANIFEST = {
